@@ -109,6 +109,7 @@ pub fn hist_op() -> BoxedStrategy<Op> {
 		1 => any::<u16>().prop_map(|s| Op::FinalizeInvoice { s }),
 		10 => (any::<u16>(), any::<bool>(), args()).prop_map(|(w, other_acct, args)| Op::SelfSend { w, other_acct, args }),
 		1 => any::<u16>().prop_map(|w| Op::Restart { w }),
+		4 => any::<u16>().prop_map(|w| Op::OutOfOrderReceives { w }),
 	]
 	.boxed()
 }
